@@ -247,7 +247,14 @@ def gen_tree(rng, cfg=None):
                 tag2 = 'DATA'
             e2 = {'tag': tag2, 'path': rel2, 'hashes': pick_hashes(rng)}
             kind = 'compatible'
-            if rng.random() < cfg.get('p_conflict', 0.3):
+            if rng.random() < cfg.get('p_wrong_dup', 0.0):
+                # a duplicate that does not conflict with the first entry (disjoint hash names) but is WRONG
+                dis = [h for h in G.SUPPORTED_HASHES if h not in e['hashes']]
+                rng.shuffle(dis)
+                e2['hashes'] = dis[:rng.choice([1, 2])]
+                e2['override'] = {e2['hashes'][0]: '0' * 8}
+                kind = 'wrong-disjoint'
+            elif rng.random() < cfg.get('p_conflict', 0.3):
                 if rng.random() < 0.5 or not e2['hashes']:
                     e2['dsize'] = 1
                     kind = 'conflict-size'
@@ -278,6 +285,23 @@ def gen_tree(rng, cfg=None):
         manifests[parent]['entries'].append(
             {'tag': 'MANIFEST', 'path': os.path.relpath(mp, pd or '.'), 'hashes': pick_hashes(rng) or ['SHA256']})
         manifests[mp]['parent'] = parent
+        if rng.random() < cfg.get('p_second_manifest_ref', 0.0):
+            # a second entry for the same sub-Manifest file, in the same or another covering Manifest:
+            # MANIFEST again (both references must hold) or DATA/EBUILD (a plain file entry for it)
+            others = [o for o in cands if o != mp]
+            par2 = rng.choice(others) if others else parent
+            pd2 = os.path.dirname(par2)
+            first_h = manifests[parent]['entries'][-1]['hashes']
+            dis = [h for h in G.SUPPORTED_HASHES if h not in first_h]
+            rng.shuffle(dis)
+            e2 = {'tag': rng.choice(cfg.get('second_ref_tags', ['MANIFEST', 'MANIFEST', 'DATA', 'EBUILD'])), 'path': os.path.relpath(mp, pd2 or '.'),
+                  'hashes': dis[:rng.choice([1, 2])]}
+            if rng.random() < cfg.get('p_second_manifest_ref_wrong', 0.0):
+                e2['override'] = {e2['hashes'][0]: '0' * 8}
+            if rng.random() < 0.5:
+                manifests[par2]['entries'].insert(0, e2)
+            else:
+                manifests[par2]['entries'].append(e2)
     # noise
     for mp in manifests:
         ents = manifests[mp]['entries']
